@@ -237,6 +237,29 @@ func liveBody(c *runner.Ctx) {
 			tbl.columns = append(tbl.columns, fmt.Sprintf("extra%d", len(tbl.columns)))
 			tableID++
 			desc = append(desc, "ALTER")
+		} else if faulty && c.Biased(4, 800, "schema-reorder") > 0 && len(pending) == 0 && len(evCh) == 0 {
+			// ALTER TABLE ... MODIFY ... AFTER ...: same number of columns, other
+			// order, new table id. Only done while no event is in flight: a
+			// reorder racing with an in-flight event is a limitation the code
+			// documents (same column count decodes into the wrong fields).
+			simrt.Sleep(time.Second)
+			if len(pending) == 0 && len(evCh) == 0 {
+				c.Fault("schema-reorder")
+				cols := append([]string{}, tbl.columns...)
+				ni, ki := -1, -1
+				for i, col := range cols {
+					switch col {
+					case "name":
+						ni = i
+					case "kind":
+						ki = i
+					}
+				}
+				cols[ni], cols[ki] = cols[ki], cols[ni]
+				tbl.columns = cols
+				tableID++
+				desc = append(desc, "REORDER")
+			}
 		}
 		id := int64(1 + c.Choose(len(tbl.rows)+2, "write-id"))
 		var nick *string
